@@ -163,3 +163,22 @@ CHECKS["C16"] = {
     "level_text": "Complete enumeration of histories within the stated bounds on the real domains and wrappers.",
     "level_note": "Semantic (not structural) comparison; representation differences that do not change the exported meaning are not flagged.",
 }
+
+CHECKS["C12"] = {
+    "level": "model_checking",
+    "technique": "exhaustive enumeration of all ordered tuples of in-language constraints (and joins/meets/forgets/copies of such conjunctions) on the real domains, against brute-force integer satisfiability/implication in a box; lock-step lifted-vs-base histories",
+    "design_ref": "DESIGN.md §2 C12",
+    "jobs": [{"bin": "c12_exact", "args": ["--mode", "exact"], "deadline": {"quick": 420, "thorough": 2700}},
+             {"bin": "c12_exact", "args": ["--mode", "lifting"], "deadline": {"quick": 240, "thorough": 1500}}],
+    "rule": ("languages over x,y,z with |k|<=2: intervals 30 constraints, zones 60, octagons 90. For intervals, sparse_dbm, split_dbm, split_oct "
+             "and every closure-parameter setting (5 quick / 16 thorough): every single constraint, every ORDERED pair (added one at a time, as one "
+             "system, and with the last one added to a copy) and every ordered triple (quick: default setting, third constant |k|<=1); forget of each "
+             "variable; meet and join of all pairs from a pool of conjunctions with <=2 constraints. Oracle: exact solution set as a bitset over "
+             "[-10,10]^3: bottom <=> no solution; entails(c) <=> implied for EVERY language constraint c with |k|<=3; at(v) = exact projection "
+             "(nested boxes detect unbounded directions); join entails c <=> both operands do (least upper bound); meet/forget exact. "
+             "Lifting clause: all straight-line numerical histories (extended C03 alphabet, depth 2/3) run in lock step on each boolean/array/"
+             "region lifting and reduced product and on its base domain: lifted at(v) must be within base at(v)."),
+    "assumptions": ["a satisfiable conjunction of <=3 unit-coefficient constraints with |k|<=2 has a solution well inside [-10,10]^3 and bounded optima are attained strictly inside (nested-box test)"],
+    "level_text": "Complete enumeration of the stated constraint tuples and pairs on the real domains with an exact brute-force integer oracle.",
+    "level_note": "Three variables, |k|<=2, up to 3 constraints; languages with more variables or larger constants are not covered.",
+}
